@@ -166,6 +166,7 @@ def run(ctx):
             Aor.indptr, Aor.indices = Aor.indptr.astype(I32), Aor.indices.astype(I32)
             Aor.has_sorted_indices = False
         oracle(ctx, interp, Ad, Aor, theta, norm, spl, sym, rowsum0, dict(base, unsorted_indices=(it % 3 == 1)))
+    corpus(ctx, interp)
     ctx.corr_relations = ['amg_core.rs_direct_interpolation_pass1/2, remove_strong_FF_connections, rs_classical_interpolation_pass1/2, one_point_interpolation '
                           '== Interp.* at PrimFloat (bit-exact)']
     bad, errs = cq.run_cases('c11', HEADER, 'caseT', 'chk', cases, shard=60)
@@ -380,7 +381,79 @@ def oracle(ctx, interp, Ad, A, theta, norm, spl, sym, rowsum0, base):
                         ctx.fail('local_air/RA-not-zero' + ('/bsr-gmres-preconditioned' if (fmt_ == 'bsr' and solver_ == 'gmres') else ''),
                                  'row %d: max |(RA)[i,j]| on the F pattern = %.3g' % (r, np.abs(RA[np.ix_(rows_, dofs)]).max()), case)
                         break
+    # the restriction does not depend on the units of A (within ordinary ranges): local_air(s A) = local_air(A) (QR local solves)
+    for degree in (1, 2):
+        try:
+            with warnings.catch_warnings():
+                warnings.simplefilter('ignore')
+                R1 = sp.csr_array(interp.local_air(A, spl, theta=0.1, norm='abs', degree=degree)).toarray()
+                for sc_ in (1e-8, 2.0 ** -26, 2.0 ** 30):      # (the QR helper treats columns of norm < 1e-12 as zero: not below that)
+                    Rs = sp.csr_array(interp.local_air(sp.csr_array(A * sc_), spl, theta=0.1, norm='abs', degree=degree)).toarray()
+                    ctx.count('oracle:air/scaled')
+                    if Rs.shape != R1.shape or _nn(np.abs(Rs - R1).max()) > 1e-6 * (1 + np.abs(R1).max()):
+                        ctx.fail('local_air/not-scale-invariant', 'degree %d: local_air(%g A) differs from local_air(A) by %.3g' % (degree, sc_, np.abs(Rs - R1).max()),
+                                 dict(base, routine='local_air', degree=degree, scale=sc_))
+                        break
+        except Exception as e:   # noqa
+            ctx.fail('local_air/scaled/raises', repr(e), dict(base, routine='local_air', degree=degree))
     ctx.case(('oracle', repr(base['dense']), repr(base['splitting']), theta, norm), True)
+
+
+def corpus(ctx, interp):
+    """fixed inputs: single precision with seven orders of magnitude between couplings; the matrix itself as strength matrix"""
+    t = 1e-8
+    W = np.array([[1.0, -0.5, -t, 0.0], [-0.5, 1.0, -0.5, 0.0], [-t, -0.5, 1.0, -(0.5 - t)], [0.0, 0.0, -0.5, 1.0]])
+    spl4 = np.array([1, 0, 0, 1], dtype='intc')
+    for dt in (np.float64, np.float32):
+        A4 = sp.csr_array(W.astype(dt))
+        C4 = sp.csr_array((W != 0).astype(dt) - np.eye(4, dtype=dt))
+        for modified in (False, True):
+            case = dict(corpus='tiny-coupling-4x4', dtype=np.dtype(dt).name, modified=modified)
+            ctx.mark(case)
+            try:
+                with warnings.catch_warnings(), np.errstate(all='ignore'):
+                    warnings.simplefilter('ignore')
+                    P = sp.csr_array(interp.classical_interpolation(A4, C4, spl4, modified=modified)).toarray()
+            except Exception as e:   # noqa
+                ctx.fail('classical/corpus/raises', repr(e), case)
+                continue
+            ctx.case(('corpus', 'tiny-coupling', np.dtype(dt).name, modified), True)
+            ctx.count('oracle:corpus')
+            # rows 1 and 2 are fine rows with zero row sum of an M-matrix whose strong F neighbours share a C point: constants are
+            # interpolated exactly (to the precision of the data)
+            tol_ = 1e-10 if dt == np.float64 else 1e-5
+            if not np.all(np.isfinite(P)) or _nn(np.abs(P[[1, 2]].sum(1) - 1).max()) > tol_:
+                ctx.fail('classical%s/row-sum-not-one/tiny-coupling' % ('/modified' if modified else ''),
+                         '%s data, a_kj = -1e-8: fine rows sum to %s' % (np.dtype(dt).name, P[[1, 2]].sum(1).tolist()), case)
+    # the strength matrix handed in IS the matrix (what the solvers do when no strength measure is requested): A comes back untouched
+    # and the prolongator is the one obtained with a separate copy
+    from pyamg.gallery import poisson
+    An = sp.csr_array(poisson((5, 5), format='csr'))
+    An = sp.csr_array(An - sp.diags_array(np.asarray(An.sum(axis=1)).ravel()))        # Neumann: zero row sums
+    An = sp.csr_array(An + 0.0 * An)
+    from pyamg.classical.split import RS
+    spl5 = RS(sp.csr_array(An))
+    for nm, f in (('direct', lambda C_: interp.direct_interpolation(An, C_, spl5)), ('classical', lambda C_: interp.classical_interpolation(An, C_, spl5)),
+                  ('classical/modified', lambda C_: interp.classical_interpolation(An, C_, spl5, modified=True))):
+        keep = An.toarray().copy()
+        case = dict(corpus='C-is-A', routine=nm)
+        ctx.mark(case)
+        try:
+            with warnings.catch_warnings(), np.errstate(all='ignore'):
+                warnings.simplefilter('ignore')
+                Pref = sp.csr_array(f(An.copy())).toarray()
+                Pali = sp.csr_array(f(An)).toarray()
+        except Exception as e:   # noqa
+            ctx.fail(nm + '/C-is-A/raises', repr(e), case)
+            continue
+        ctx.case(('corpus', 'C-is-A', nm), True)
+        ctx.count('oracle:corpus')
+        if np.abs(An.toarray() - keep).max() != 0:
+            ctx.fail(nm + '/C-is-A/matrix-modified', 'the matrix handed in as A and as C was overwritten (max change %.3g)' % np.abs(An.toarray() - keep).max(), case)
+            An = sp.csr_array(keep)
+        both = np.isfinite(Pref) & np.isfinite(Pali)
+        if Pref.shape != Pali.shape or _nn(np.abs(Pref[both] - Pali[both]).max(initial=0)) > 1e-12:
+            ctx.fail(nm + '/C-is-A/differs', 'C = A (same object) gives another prolongator than C = A.copy()', case)
 
 
 def search(ctx):
